@@ -236,7 +236,9 @@ class Concat(Expr):
                 return e.columns if e.ndim == 2 else [e.name]
 
             columns = determine_column_projection(self, parent, dependents)
-            columns = _convert_to_list(columns)
+            # an unnamed Series is labelled with its position among the unnamed
+            # Series, dropping one of them would relabel the others: keep them all
+            columns = _convert_to_list(columns) + [None]
             columns_frame = [
                 [col for col in get_columns_or_name(frame) if col in columns]
                 for frame in self._frames
@@ -264,6 +266,9 @@ class Concat(Expr):
                 *[self.operand(param) for param in self._parameters],
                 *frames,
             )
+            if result.ndim == 1 and result.name is None:
+                # the only frame left, as a column of self it is labelled 0
+                result = ToFrame(result)
             if result.columns == _convert_to_list(parent.operand("columns")):
                 if result.ndim == parent.ndim:
                     return result
